@@ -206,7 +206,7 @@ func VerifC03Schedules() {
 	}()
 	go func() { // HW setter: commits whatever is in the log, twice
 		last := int64(-1)
-		for i := 0; i < 2; i++ {
+		for i := 0; i < vParam("hwsets", 2); i++ {
 			hw := l.NewestOffset()
 			l.SetHighWatermark(hw)
 			now := l.HighWatermark()
